@@ -12,7 +12,7 @@ rule   := F func^F func            -- the last func is the outbound
 prog   := N rule^N
 geo    := G (kind(site|ip) file code (K param^K | !))^G      -- `!` = load error; absent = load error
 labels := L (func (F id mark must | M))^L                     -- what an outbound decides (after the must_ rewrite); M = must_rules
-P <backend:scan|scansplit|sel|selnode> <cat:dns|sub|node|subnode> <alias:0|1> geo labels FB id mark must FBW func
+P <backend:scan|scansplit|sel|selnode> <cat:dns|sub|node|subnode> <alias:0|1> geo labels FB id mark must FBW func MX <consts.MaxMatchSetLen>
   A n (name key val)^n  GN n name^n  prog
       → opt=<prog after the pipeline | err> split=<#rules of the category | - | err>
 q <bits|-> <gbits|->
@@ -199,6 +199,8 @@ structure Ctx where
   /-- what-if variants of the pipeline (sensitivity counters) -/
   variants : List (Option Prog)
   atomIx : Std.HashMap (String × Param) Nat
+  /-- consts.MaxMatchSetLen of the code under test -/
+  maxSets : Nat
   /-- the tables of the P line cover everything the model will look up -/
   complete : Bool
 
@@ -221,6 +223,8 @@ def parseCtx (ts : List String) : Option Ctx := do
   let (fmust, ts) ← pNat ts
   let (_, ts) ← expect "FBW" ts
   let (fbw, ts) ← pFunc ts
+  let (_, ts) ← expect "MX" ts
+  let (maxSets, ts) ← pNat ts
   let (_, ts) ← expect "A" ts
   let (atoms, ts) ← pCounted pAtom ts
   let (_, ts) ← expect "GN" ts
@@ -261,7 +265,7 @@ def parseCtx (ts : List String) : Option Ctx := do
          atoms, guardNames := gn, prog, out, final := split out, rawFinal := split expanded,
          final2 := split2 out, rawFinal2 := split2 expanded, mergedFlags,
          variants := [split (expanded.map variantNeg), split (expanded.map variantVal), split (expanded.map variantName)],
-         atomIx, complete := outsKnown && atomsKnown }
+         atomIx, maxSets, complete := outsKnown && atomsKnown }
 
 /-! serialisation -/
 
@@ -295,11 +299,12 @@ def mkSem (c : Ctx) (bits gbits : Array Char) : Sem Dec :=
       | none => true
     emptyVal := fun _ => c.backend == "sel"
     parseOut := c.parseOut
-    perValue := fun n => ["port", "sport", "pname", "dscp", "qtype", "upstream"].contains n }
+    perValue := fun n => ["port", "sport", "pname", "dscp", "qtype", "upstream"].contains n
+    maxMatchSets := c.maxSets }
 
 /-- the same `Sem` with `δ = Option Dec` (`none` = no rule matched), for `nodeLookup` -/
 def optSem (S : Sem Dec) : Sem (Option Dec) :=
-  { atom := S.atom, guard := S.guard, emptyVal := S.emptyVal, perValue := S.perValue
+  { atom := S.atom, guard := S.guard, emptyVal := S.emptyVal, perValue := S.perValue, maxMatchSets := S.maxMatchSets
     parseOut := fun o => match S.parseOut o with
       | .final d => .final (some d)
       | .mustRules => .mustRules }
